@@ -81,6 +81,16 @@ func main() {
 		fmt.Fprintln(os.Stderr, "hx: no runner for", *prop)
 		os.Exit(2)
 	}
+	if *work != "" {
+		// generated files are written below the scratch directory; x/tools/imports (run by the generator)
+		// resolves package names through the enclosing module, as it would in a user's project
+		os.MkdirAll(*work, 0o755)
+		gomod := "module scratch\n\ngo 1.23\n\nrequire (\n\tgithub.com/Khan/genqlient v0.0.0\n\tverifharness v0.0.0\n)\n\nreplace github.com/Khan/genqlient => " + *repo + "\n\nreplace verifharness => /verif/harness\n"
+		os.WriteFile(*work+"/go.mod", []byte(gomod), 0o644)
+		if sum, err := os.ReadFile(*repo + "/go.sum"); err == nil {
+			os.WriteFile(*work+"/go.sum", sum, 0o644)
+		}
+	}
 	drv, err := proto.StartDriver(*driver)
 	if err != nil {
 		fmt.Fprintln(os.Stderr, "hx: cannot start driver:", err)
